@@ -373,6 +373,14 @@ fn box_round_trips<'b, T: Elem>(ctx: &mut Ctx, alloc: &mut dyn FnMut(&[u64]) -> 
         }
     }
     clear_stash();
+    if zst {
+        // every zero-sized value made for this case has been destructed exactly once by now (all owners are gone)
+        let (c, d, st) = zcounts();
+        if d + st != c {
+            ctx.oracle("C16", format!("zst box split_at({at}) / merge / split_first|last round trip (variant {variant}) on len={len}: {c} values made, {d} destructor calls"));
+            ctx.oracle("C06", format!("zst box split_at({at}) / merge round trip (variant {variant}) on len={len}: {c} values made, {d} destructor calls (a value was dropped twice or leaked)"));
+        }
+    }
     let _ = take_log();
     let _ = take_created();
 }
